@@ -403,6 +403,32 @@ def rule_lookup_delegation(ctx, prog, rule="R13"):
             ok = bad is None and strip(re_) == ("field", ("param", 1, "self"), "projections")
     ctx.ob(rule, "Grid::shape/delegates", ok, gs.where(), "= projections.iter().map(Bins::len).collect()" if ok else
            "Grid::shape is `%s`" % fmt(r)[:160], what="grid shape not the per-axis bin counts in order")
+    # Bins::index(i) is the range between the consecutive edges i and i+1
+    bidx = prog.find("histogram::bins::Bins::<A>::index")
+    rg = [(bb, si, st_) for bb, si, st_ in bidx.assigns() if st_["rv"]["k"] == "agg" and st_["rv"].get("adt") == "std::ops::Range"]
+    oki, idetail = False, "no single Range{..} construction"
+    if len(rg) == 1:
+        bb, si, st_ = rg[0]
+        names_ = st_["rv"].get("field_names") or ["start", "end"]
+        fs = dict(zip(names_, [strip(bidx.operand_expr(f, bb, si)) for f in st_["rv"]["fields"]]))
+
+        def edge_at_(e):
+            if isinstance(e, tuple) and e[0] == "call" and e[1] == "clone":
+                e = strip(e[3][0])
+            if isinstance(e, tuple) and e[0] == "call" and e[1] == "index" and len(e[3]) == 2 and \
+                    strip(e[3][0]) == ("field", ("param", 1, "self"), "edges"):
+                return strip(e[3][1])
+            return None
+
+        def plus_one_(e):
+            if isinstance(e, tuple) and e[0] == "field" and e[2] == "0":
+                e = strip(e[1])
+            return isinstance(e, tuple) and e[0] == "binop" and e[1] in ("Add", "AddWithOverflow", "AddUnchecked") and \
+                strip(e[2])[:2] == ("param", 2) and strip(e[3]) == ("const", "usize", 1)
+        i0, i1 = edge_at_(fs.get("start")), edge_at_(fs.get("end"))
+        oki = i0 is not None and i0[:2] == ("param", 2) and i1 is not None and plus_one_(i1)
+        idetail = "Range{start: edges[i], end: edges[i+1]}" if oki else "Bins::index builds Range{start: %s, end: %s}" % (fmt(fs.get("start"))[:50], fmt(fs.get("end"))[:50])
+    ctx.ob(rule, "Bins::index/consecutive-edges", oki, bidx.where(), idetail, what="by-position accessor does not return the i-th bin")
     # Bins::is_empty agrees with Bins::len
     be = prog.find("histogram::bins::Bins::<A>::is_empty", required=False)
     if be is not None:
